@@ -67,6 +67,22 @@ let handle line =
        | Some ds -> "OK " ^ string_of_int (List.length ds) ^
                     String.concat "" (List.map (fun (c, l) -> " " ^ print_cand c ^ " " ^ cl_hex l) ds))
     | "H" -> (match hash_of_resource (next_str st) with None -> "N" | Some h -> "S " ^ cl_hex h)
+    | "Q" ->
+      (* steps, then the network (url -> content id) and sha256 (content id -> digest) as tables *)
+      let steps = next_list st (fun st -> let f = next_str st in let r = next_str st in let u = next_str st in
+                                 { r_file = f; r_res = r; r_url = u }) in
+      let serve_t = next_list st (fun st -> let u = next_str st in let c = next_str st in (u, c)) in
+      let dig_t = next_list st (fun st -> let c = next_str st in let d = next_str st in (c, d)) in
+      let init = next_list st (fun st -> let f = next_str st in let c = next_str st in (f, c)) in
+      let serve u = match List.assoc_opt u serve_t with Some c -> c | None -> cl_of_string "404" in
+      let digest c = match List.assoc_opt c dig_t with Some d -> d | None -> cl_of_string "?" in
+      let (pins, fin) = resolve_seq digest serve init steps in
+      let pp ((b, h), c) = cl_hex b ^ " " ^ (match h with None -> "N" | Some x -> "S " ^ cl_hex x) ^ " " ^ (if c then "1" else "0") in
+      string_of_int (List.length pins) ^ String.concat "" (List.map (fun p -> " " ^ pp p) pins) ^
+      (match fin with
+       | None -> " NOFILE"
+       | Some wd -> " W " ^ string_of_int (List.length wd) ^
+                    String.concat "" (List.map (fun (f, c) -> " " ^ cl_hex f ^ " " ^ cl_hex c) wd))
     | "U" -> let f = next st in let a = next_str st in
       (match f with
        | "splitext" -> cl_hex (splitext_ext a)
